@@ -58,14 +58,32 @@ def rule_ellipsis(ctx):
                 if used is not None and used[0] in tested and n.func.value.id not in tested:
                     continue
                 used = (n.func.value.id, st)
-    C.require(used is not None, "parse_equation_ellipses: collection of used symbols not found")
-    uname, ust = used
+    whole_used = None
+    if used is None:
+        # the collection may be built in one go from the whole left-hand side: `used = set(lhs)`
+        for n in walk_local(f.node):
+            if isinstance(n, ast.Assign) and len(n.targets) == 1 and isinstance(n.targets[0], ast.Name) and n.targets[0].id in tested \
+                    and isinstance(n.value, ast.Call) and dotted(n.value.func) in ("set", "frozenset") and n.value.args \
+                    and not C.enclosing_loops(f, n):
+                src = {x.id for x in ast.walk(n.value.args[0]) if isinstance(x, ast.Name)}
+                la_ = ctx.r.local_assignments(f)
+                params_ = [a.arg for a in f.node.args.args]
+                # everything left of '->' (or the whole equation)
+                if src & ({params_[0]} | {nm for nm, vs in la_.items() if any(".split('->')" in C.unparse(v_) or '.split("->")' in C.unparse(v_) for v_ in vs)}):
+                    whole_used = (n.targets[0].id, n)
+    C.require(used is not None or whole_used is not None, "parse_equation_ellipses: collection of used symbols not found")
+    uname, ust = used if used is not None else whole_used
     picks = [n for n in walk_local(f.node) if isinstance(n, ast.Compare) and isinstance(n.ops[0], ast.NotIn)
              and dotted(n.comparators[0]) == uname]
     k = ctx.key(f, "C12-ELLIPSIS", "fresh")
     if not picks:
         r.violation(k, f.loc, f"fresh symbols for '...' are not tested against `{uname}`: a symbol already "
                     f"used in the equation can be chosen and the two indices are identified")
+    elif whole_used is not None:
+        if ust.lineno < picks[0].lineno:
+            r.ok(k, C.loc(f, picks[0]), f"`{uname}` holds every symbol left of '->' before symbols `not in {uname}` are chosen")
+        else:
+            r.violation(k, C.loc(f, picks[0]), f"fresh symbols are chosen before `{uname}` is built")
     else:
         pick_st = C.enclosing_stmt(f, picks[0])
         # the outermost loops of both, in one block, collection first
@@ -103,9 +121,22 @@ def rule_ellipsis(ctx):
     rep = per_operand[0]
     lp = C.enclosing_loops(f, C.enclosing_stmt(f, rep))[0]
     sl = [x for x in ast.walk(rep.args[1]) if isinstance(x, ast.Subscript) and isinstance(x.slice, ast.Slice)]
+    growing = None
+    if sl:
+        base = dotted(sl[0].value)
+        for n in ast.walk(lp):
+            if isinstance(n, ast.Call) and isinstance(n.func, ast.Attribute) and n.func.attr in ("append", "extend", "insert") \
+                    and dotted(n.func.value) == base:
+                growing = n
+            if isinstance(n, ast.AugAssign) and dotted(n.target) == base:
+                growing = n
     if not sl:
         r.violation(k, C.loc(f, rep), "every operand's '...' is replaced by the same symbols regardless of how "
                     "many dimensions it stands for")
+    elif growing is not None:
+        r.violation(k, C.loc(f, growing), f"(seed C12_7) `{C.unparse(growing, 50)}` inside the loop that replaces the operands' '...': an operand "
+                    f"seen before a longer ellipsis takes the last symbols of a list that is still growing, so its broadcast "
+                    f"dimensions line up with the *leading* dimensions of the longer one (numpy aligns them to the right)")
     else:
         s0 = sl[0]
         # names: the per-operand count is the loop's value variable; req is the other name in the bound
